@@ -45,8 +45,8 @@ def manager_sweep(tier):
 
 def run(tier):
     if tier == "thorough":
-        cfgs = [dict(name="sm-resumable", config={"sm": True, "resumable": True}, depth=8, dev=3, deadline=1800),
-                dict(name="no-sm", config={"sm": False}, depth=8, dev=3, deadline=1200)]
+        cfgs = [dict(name="sm-resumable", config={"sm": True, "resumable": True}, depth=9, dev=3, deadline=1800),
+                dict(name="no-sm", config={"sm": False}, depth=9, dev=3, deadline=1200)]
         return bfs_check(PROP, HARNESS, tier, cfgs, RULE, ASSUME, witness_required=WIT, crosscheck_depth=3, extra_pass=manager_sweep(tier))
     cfgs = [dict(name="sm-resumable", config={"sm": True, "resumable": True}, depth=5, dev=2, deadline=300),
             dict(name="no-sm", config={"sm": False}, depth=4, dev=2, deadline=200)]
